@@ -717,6 +717,22 @@ package client
 //@     modifies ncc
 //@     decreases len(c) - rangeindex
 
+// clientState.run: the wrapper goroutine body. Channels are opaque, so what is decided is the order of the calls: the
+// client is asked to stop exactly once, and the wait for its Run to return (guarded by 5 s) comes after that request and
+// before run returns - run returning is what lets the manager forget the state and start a replacement.
+//@ model func stopsCalled(c Client) int
+//@ extern client.(Client).Stop(self, err)
+//@   modifies self
+//@   ensures stopsCalled(self) == old(stopsCalled(self)) + 1
+//@ extern client.(Client).Run(self)
+//@ func (*clientState[T]).run
+//@   props C07
+//@   local cs *client.clientState[T]#1
+//@   requires cs != nil
+//@   modifies cs.client
+//@   assert [C07] waits-for-the-client-only-after-asking-it-to-stop: stopsCalled(cs.client) == old(stopsCalled(cs.client)) + 1 at "time.After(5 * time.Second)"
+//@   ensures [C07] the-client-was-asked-to-stop-exactly-once-before-run-returns: stopsCalled(cs.client) == old(stopsCalled(cs.client)) + 1
+
 //@ func (*Manager[T]).scanHelper
 //@   props C07
 //@   local m *client.Manager[T]#1
